@@ -93,6 +93,71 @@ def rpn_of(t):
     return out
 
 
+def rank(t):
+    """number of axes of a splitter over plain lists, None when an inner product pairs operands of different rank"""
+    k = sa.kind(t)
+    if k == "f":
+        return 1
+    rs = [rank(c) for c in t[k]]
+    if None in rs:
+        return None
+    if k == "o":
+        return sum(rs)
+    return rs[0] if all(r == rs[0] for r in rs) else None
+
+
+def axis_lengths_case(t, comb, variant=0):
+    """cheap lengths that still discriminate the order of the remaining keys: the remaining axes get lengths 2,1,2,…
+    (variant 1: 1,2,3,…), the first combined axis 2, the other combined axes 1"""
+    axes = sa.oracle_axes(t)
+    closed = set(sa.oracle_closure(t, list(comb)))
+    lens, n_rem, n_comb = {}, 0, 0
+    total_rem = sum(1 for ax in axes if ax[0] not in closed)
+    for ax in axes:
+        if ax[0] in closed:
+            n = 2 if (n_comb == 0 and total_rem <= 2 - variant) else 1
+            n_comb += 1
+        else:
+            n = ([2, 1, 2, 1] if variant == 0 else [1, 2, 2, 1])[n_rem % 4]
+            n_rem += 1
+        for f in ax:
+            lens[f] = n
+    return sa.flat_case_from(t, lens, comb)
+
+
+def four_field_shapes():
+    """every n-ary splitter shape over four fields (binary bracketings included) that plain lists can satisfy"""
+    return [t for t in sa.all_trees([0, 1, 2, 3]) if rank(t) is not None]
+
+
+def systematic_cases(seed: int, everything: bool = False):
+    """every 4-field shape x every single-axis partial combiner, plus a rotating (by seed) choice of two-axis partial
+    combiners (`everything`: all closed partial combiners, two length variants)"""
+    out, seen = [], set()
+    for si, t in enumerate(four_field_shapes()):
+        fs = sa.tree_fields(t)
+        closures = []
+        for k in (1, 2, 3):
+            for comb in itertools.combinations(fs, k):
+                cl = tuple(sa.oracle_closure(t, list(comb)))
+                if len(cl) < len(fs) and cl not in closures:
+                    closures.append(cl)
+        n_axes = len(sa.oracle_axes(t))
+        singles = [c for c in closures if sum(1 for ax in sa.oracle_axes(t) if ax[0] in c) == 1]
+        multi = [c for c in closures if c not in singles]
+        chosen = list(closures) if everything else singles + ([multi[(seed + si) % len(multi)]] if multi and n_axes >= 3 else [])
+        for cl in chosen:
+            # name the closure by one generator per axis (the code must close it itself)
+            gens = [next(f for f in ax if f in cl) for ax in sa.oracle_axes(t) if ax[0] in cl]
+            for variant in (0, 1) if everything else ((seed + si) % 2,):
+                c = axis_lengths_case(t, gens, variant)
+                key = json.dumps([c["splitter"], c["combiner"], [len(v) for _, v, _ in c["fields"]]])
+                if key not in seen:
+                    seen.add(key)
+                    out.append(c)
+    return out
+
+
 def comb_case(rng, nfields, max_jobs=24):
     for _ in range(50):
         fs = rng.sample(range(len(sa.FIELDS)), nfields)
@@ -119,7 +184,13 @@ def judge_recs(ctx, recs):
             # internals only: fidelity information, never a verdict
             m, i = r.get("model_raw") or {}, r["impl"]
             if "mapping" in m and "mapping" in i:
-                same = m["mapping"] == i["mapping"] and sorted(m["combiner_all"]) == i["combiner_all"] and m["rpn_final"] == i["rpn_final"]
+                same = (
+                    m["mapping"] == i["mapping"]
+                    and sorted(m["combiner_all"]) == i["combiner_all"]
+                    and m["rpn_final"] == i["rpn_final"]
+                    and m["keys_final"] == i["keys_final"]
+                    and m["states_ind_final"] == i["states_ind_final"]
+                )
                 ctx.count("state-internals:" + ("agree" if same else "DISAGREE"))
                 if not same and len(ctx.extra.setdefault("state_internal_disagreements", [])) < 3:
                     ctx.extra["state_internal_disagreements"].append({"case": case, "impl": i, "model": m})
@@ -156,9 +227,14 @@ def correspondence(ctx):
             ctx.violations.append({"kind": "fixed-defect-regressed", "finding": "D34", "case": w, "impl": got})
     items = [(D34_A, "public"), (D34_B, "public"), (D34_A, "state"), (D34_B, "state")]
     items += [(c, lvl) for c in sa.corpus("c02.jsonl") for lvl in ("state", "public")]
-    for _ in range(ctx.pick(70, 600)):
-        items.append((comb_case(rng, rng.choice([1, 2, 2, 3, 3, 3, 4, 4, 4, 4, 4, 5])), "public"))
-    for _ in range(ctx.pick(300, 5000)):
+    # systematic: every 4-field shape x partial combiners through the public path (cheap lengths)
+    for c in systematic_cases(ctx.seed, everything=not ctx.quick):
+        ctx.count("systematic-4-field")
+        items.append((c, "public"))
+        items.append((c, "state"))
+    for _ in range(ctx.pick(8, 450)):
+        items.append((comb_case(rng, rng.choice([1, 2, 2, 3, 3, 3, 4, 4, 4, 5])), "public"))
+    for _ in range(ctx.pick(150, 5000)):
         items.append((comb_case(rng, rng.choice([2, 3, 3, 4, 4, 4, 5, 6]), max_jobs=40), "state"))
     if not ctx.quick:
         # every tree over <= 3 fields x every combiner x lengths {1,2} on the public path
@@ -169,7 +245,13 @@ def correspondence(ctx):
                     for k in range(1, nf + 1):
                         for comb in itertools.combinations(fs, k):
                             items.append((sa.flat_case_from(t, dict(zip(fs, lens)), comb), "public"))
-    judge_recs(ctx, sa.run_batch(ctx, items))
+    seen, uniq = set(), []
+    for c, lvl in items:  # corpus and systematic cases overlap: run each (case, level) once
+        k = json.dumps([c, lvl], sort_keys=True)
+        if k not in seen:
+            seen.add(k)
+            uniq.append((c, lvl))
+    judge_recs(ctx, sa.run_batch(ctx, uniq))
 
 
 def search(ctx):
